@@ -41,6 +41,24 @@ func (b *bld) bufV(on bool, name string, n int) Vector {
 	b.vec(name, "insitu", v)
 	return v
 }
+// setters for InSitu fields: the second and later calls of a sequence leave the
+// persistent struct as the previous call left it
+func (b *bld) setM(p *Matrix, on bool, name string, rows, cols int) {
+	if !b.later() {
+		*p = b.bufM(on, name, rows, cols)
+	}
+}
+func (b *bld) setV(p *Vector, on bool, name string, n int) {
+	if !b.later() {
+		*p = b.bufV(on, name, n)
+	}
+}
+func (b *bld) setS(p *Scalar, on bool, name string) {
+	if !b.later() {
+		*p = b.bufS(on, name)
+	}
+}
+
 func (b *bld) bufS(on bool, name string) Scalar {
 	if !on {
 		return nil
@@ -79,13 +97,13 @@ func init() {
 			}
 			var args []interface{}
 			if b.bit(1) {
-				is := &backSubstitution.InSitu{}
-				is.A = b.bufM(b.bit(2), "InSitu.A", n, n)
-				is.X = b.bufV(b.bit(3), "InSitu.X", n)
-				is.T = b.bufS(b.bit(4), "InSitu.T")
+				is := b.persist(&backSubstitution.InSitu{}).(*backSubstitution.InSitu)
+				b.setM(&is.A, b.bit(2), "InSitu.A", n, n)
+				b.setV(&is.X, b.bit(3), "InSitu.X", n)
+				b.setS(&is.T, b.bit(4), "InSitu.T")
 				args = append(args, is)
 			}
-			b.run = func() error { _, err := backSubstitution.Run(A, bv, args...); return err }
+			b.run = func() error { x, err := backSubstitution.Run(A, bv, args...); b.ret(x); return err }
 		}})
 
 	// ------------------------------------------------------------ 7 cholesky.Run
@@ -111,14 +129,14 @@ func init() {
 			b.mat("a", "input", a)
 			args := []interface{}{cholesky.LDL{Value: b.bit(0)}, cholesky.ForcePD{Value: b.bit(1)}}
 			if b.bit(2) {
-				is := &cholesky.InSitu{}
-				is.L = b.bufM(b.bit(3), "InSitu.L", n, n)
-				is.D = b.bufM(b.bit(4), "InSitu.D", n, n)
-				is.S = b.bufS(b.bit(5), "InSitu.S")
-				is.T = b.bufS(b.bit(6), "InSitu.T")
+				is := b.persist(&cholesky.InSitu{}).(*cholesky.InSitu)
+				b.setM(&is.L, b.bit(3), "InSitu.L", n, n)
+				b.setM(&is.D, b.bit(4), "InSitu.D", n, n)
+				b.setS(&is.S, b.bit(5), "InSitu.S")
+				b.setS(&is.T, b.bit(6), "InSitu.T")
 				args = append(args, is)
 			}
-			b.run = func() error { _, _, err := cholesky.Run(a, args...); return err }
+			b.run = func() error { l, d, err := cholesky.Run(a, args...); b.ret(l, d); return err }
 		}})
 
 	// ------------------------------------------------------------ 8 determinant.Run
@@ -143,13 +161,13 @@ func init() {
 			b.mat("a", "input", a)
 			args := []interface{}{determinant.PositiveDefinite{Value: b.bit(0)}, determinant.LogScale{Value: b.bit(1)}}
 			if b.bit(2) {
-				is := &determinant.InSitu{}
-				is.Cholesky.L = b.bufM(b.bit(3), "InSitu.Cholesky.L", n, n)
-				is.Cholesky.S = b.bufS(b.bit(4), "InSitu.Cholesky.S")
-				is.Cholesky.T = b.bufS(b.bit(5), "InSitu.Cholesky.T")
+				is := b.persist(&determinant.InSitu{}).(*determinant.InSitu)
+				b.setM(&is.Cholesky.L, b.bit(3), "InSitu.Cholesky.L", n, n)
+				b.setS(&is.Cholesky.S, b.bit(4), "InSitu.Cholesky.S")
+				b.setS(&is.Cholesky.T, b.bit(5), "InSitu.Cholesky.T")
 				args = append(args, is)
 			}
-			b.run = func() error { _, err := determinant.Run(a, args...); return err }
+			b.run = func() error { d, err := determinant.Run(a, args...); b.ret(d); return err }
 		}})
 
 	// ------------------------------------------------------------ 9 eigensystem.Run
@@ -177,23 +195,23 @@ func init() {
 				args = append(args, qrAlgorithm.Symmetric{Value: true})
 			}
 			if b.bit(2) {
-				is := &eigensystem.InSitu{}
-				is.Eigenvalues = b.bufV(b.bit(3), "InSitu.Eigenvalues", n)
-				is.Eigenvectors = b.bufM(b.bit(4), "InSitu.Eigenvectors", n, n)
+				is := b.persist(&eigensystem.InSitu{}).(*eigensystem.InSitu)
+				b.setV(&is.Eigenvalues, b.bit(3), "InSitu.Eigenvalues", n)
+				b.setM(&is.Eigenvectors, b.bit(4), "InSitu.Eigenvectors", n, n)
 				if b.bit(5) {
 					q := &is.QrAlgorithm
 					q.InitializeH = true
-					q.H = b.bufM(true, "InSitu.QrAlgorithm.H", n, n)
-					q.U = b.bufM(true, "InSitu.QrAlgorithm.U", n, n)
-					q.T1 = b.bufS(true, "InSitu.QrAlgorithm.T1")
-					q.T2 = b.bufS(true, "InSitu.QrAlgorithm.T2")
-					q.T3 = b.bufS(true, "InSitu.QrAlgorithm.T3")
-					q.T4 = b.bufV(true, "InSitu.QrAlgorithm.T4", n)
-					q.S = b.bufS(true, "InSitu.QrAlgorithm.S")
+					b.setM(&q.H, true, "InSitu.QrAlgorithm.H", n, n)
+					b.setM(&q.U, true, "InSitu.QrAlgorithm.U", n, n)
+					b.setS(&q.T1, true, "InSitu.QrAlgorithm.T1")
+					b.setS(&q.T2, true, "InSitu.QrAlgorithm.T2")
+					b.setS(&q.T3, true, "InSitu.QrAlgorithm.T3")
+					b.setV(&q.T4, true, "InSitu.QrAlgorithm.T4", n)
+					b.setS(&q.S, true, "InSitu.QrAlgorithm.S")
 				}
 				args = append(args, is)
 			}
-			b.run = func() error { _, _, err := eigensystem.Run(a, args...); return err }
+			b.run = func() error { ev, evec, err := eigensystem.Run(a, args...); b.ret(ev, evec); return err }
 		}})
 
 	// ------------------------------------------------------------ 10 gaussJordan.Run
@@ -298,12 +316,12 @@ func init() {
 			b.mat("a", "input", a)
 			var args []interface{}
 			if b.bit(0) {
-				is := gramSchmidt.InSitu{}
-				is.Q = b.bufM(b.bit(1), "InSitu.Q", n, m)
-				is.R = b.bufM(b.bit(2), "InSitu.R", n, m)
-				args = append(args, is)
+				is := b.persist(&gramSchmidt.InSitu{}).(*gramSchmidt.InSitu)
+				b.setM(&is.Q, b.bit(1), "InSitu.Q", n, m)
+				b.setM(&is.R, b.bit(2), "InSitu.R", n, m)
+				args = append(args, *is) // gramSchmidt takes its InSitu by value
 			}
-			b.run = func() error { _, _, err := gramSchmidt.Run(a, args...); return err }
+			b.run = func() error { q, r, err := gramSchmidt.Run(a, args...); b.ret(q, r); return err }
 		}})
 
 	// ------------------------------------------------------------ 14 hessenbergReduction.Run
@@ -325,19 +343,22 @@ func init() {
 			b.mat("a", "input", a)
 			args := []interface{}{hessenbergReduction.ComputeU{Value: b.bit(0)}, hessenbergReduction.SetZero{Value: b.bit(1)}}
 			if b.bit(2) {
-				is := &hessenbergReduction.InSitu{}
-				is.H = b.bufM(b.bit(3), "InSitu.H", n, n)
-				is.U = b.bufM(b.bit(4), "InSitu.U", n, n)
-				is.X = b.bufV(b.bit(5), "InSitu.X", n)
-				is.Beta = b.bufS(b.bit(6), "InSitu.Beta")
-				is.Nu = b.bufV(b.bit(7), "InSitu.Nu", n)
-				is.T1 = b.bufS(b.bit(8), "InSitu.T1")
-				is.T2 = b.bufS(b.bit(9), "InSitu.T2")
-				is.T3 = b.bufS(b.bit(10), "InSitu.T3")
-				is.T4 = b.bufV(b.bit(11), "InSitu.T4", n)
+				is := b.persist(&hessenbergReduction.InSitu{}).(*hessenbergReduction.InSitu)
+				b.setM(&is.H, b.bit(3), "InSitu.H", n, n)
+				if b.selfBuf() {
+					is.H = a
+				}
+				b.setM(&is.U, b.bit(4), "InSitu.U", n, n)
+				b.setV(&is.X, b.bit(5), "InSitu.X", n)
+				b.setS(&is.Beta, b.bit(6), "InSitu.Beta")
+				b.setV(&is.Nu, b.bit(7), "InSitu.Nu", n)
+				b.setS(&is.T1, b.bit(8), "InSitu.T1")
+				b.setS(&is.T2, b.bit(9), "InSitu.T2")
+				b.setS(&is.T3, b.bit(10), "InSitu.T3")
+				b.setV(&is.T4, b.bit(11), "InSitu.T4", n)
 				args = append(args, is)
 			}
-			b.run = func() error { _, _, err := hessenbergReduction.Run(a, args...); return err }
+			b.run = func() error { h, u, err := hessenbergReduction.Run(a, args...); b.ret(h, u); return err }
 		}})
 
 	// ------------------------------------------------------------ 15 householder.Run
@@ -394,21 +415,21 @@ func init() {
 				args = append(args, householderBidiagonalization.Epsilon{Value: 1e-12})
 			}
 			if b.bit(3) {
-				is := &householderBidiagonalization.InSitu{}
-				is.A = b.bufM(b.bit(4), "InSitu.A", m, n)
-				is.U = b.bufM(b.bit(5), "InSitu.U", m, m)
-				is.V = b.bufM(b.bit(6), "InSitu.V", n, n)
-				is.X = b.bufV(b.bit(7), "InSitu.X", m)
-				is.Beta = b.bufS(b.bit(8), "InSitu.Beta")
-				is.Nu = b.bufV(b.bit(9), "InSitu.Nu", m)
-				is.C1 = b.bufS(b.bit(10), "InSitu.C1")
-				is.T1 = b.bufS(b.bit(11), "InSitu.T1")
-				is.T2 = b.bufS(b.bit(12), "InSitu.T2")
-				is.T3 = b.bufS(b.bit(13), "InSitu.T3")
-				is.T4 = b.bufV(b.bit(14), "InSitu.T4", m)
+				is := b.persist(&householderBidiagonalization.InSitu{}).(*householderBidiagonalization.InSitu)
+				b.setM(&is.A, b.bit(4), "InSitu.A", m, n)
+				b.setM(&is.U, b.bit(5), "InSitu.U", m, m)
+				b.setM(&is.V, b.bit(6), "InSitu.V", n, n)
+				b.setV(&is.X, b.bit(7), "InSitu.X", m)
+				b.setS(&is.Beta, b.bit(8), "InSitu.Beta")
+				b.setV(&is.Nu, b.bit(9), "InSitu.Nu", m)
+				b.setS(&is.C1, b.bit(10), "InSitu.C1")
+				b.setS(&is.T1, b.bit(11), "InSitu.T1")
+				b.setS(&is.T2, b.bit(12), "InSitu.T2")
+				b.setS(&is.T3, b.bit(13), "InSitu.T3")
+				b.setV(&is.T4, b.bit(14), "InSitu.T4", m)
 				args = append(args, is)
 			}
-			b.run = func() error { _, _, _, err := householderBidiagonalization.Run(a, args...); return err }
+			b.run = func() error { h, u, v, err := householderBidiagonalization.Run(a, args...); b.ret(h, u, v); return err }
 		}})
 
 	// ------------------------------------------------------------ 17 householderTridiagonalization.Run
@@ -432,21 +453,21 @@ func init() {
 				args = append(args, householderTridiagonalization.Epsilon{Value: 1e-12})
 			}
 			if b.bit(2) {
-				is := &householderTridiagonalization.InSitu{}
-				is.A = b.bufM(b.bit(3), "InSitu.A", n, n)
-				is.U = b.bufM(b.bit(4), "InSitu.U", n, n)
-				is.V = b.bufM(b.bit(5), "InSitu.V", n, n)
-				is.X = b.bufV(b.bit(6), "InSitu.X", n)
-				is.Beta = b.bufS(b.bit(7), "InSitu.Beta")
-				is.Nu = b.bufV(b.bit(8), "InSitu.Nu", n)
-				is.C1 = b.bufS(b.bit(9), "InSitu.C1")
-				is.T1 = b.bufS(b.bit(10), "InSitu.T1")
-				is.T2 = b.bufS(b.bit(11), "InSitu.T2")
-				is.T3 = b.bufS(b.bit(12), "InSitu.T3")
-				is.T4 = b.bufV(b.bit(13), "InSitu.T4", n)
+				is := b.persist(&householderTridiagonalization.InSitu{}).(*householderTridiagonalization.InSitu)
+				b.setM(&is.A, b.bit(3), "InSitu.A", n, n)
+				b.setM(&is.U, b.bit(4), "InSitu.U", n, n)
+				b.setM(&is.V, b.bit(5), "InSitu.V", n, n)
+				b.setV(&is.X, b.bit(6), "InSitu.X", n)
+				b.setS(&is.Beta, b.bit(7), "InSitu.Beta")
+				b.setV(&is.Nu, b.bit(8), "InSitu.Nu", n)
+				b.setS(&is.C1, b.bit(9), "InSitu.C1")
+				b.setS(&is.T1, b.bit(10), "InSitu.T1")
+				b.setS(&is.T2, b.bit(11), "InSitu.T2")
+				b.setS(&is.T3, b.bit(12), "InSitu.T3")
+				b.setV(&is.T4, b.bit(13), "InSitu.T4", n)
 				args = append(args, is)
 			}
-			b.run = func() error { _, _, err := householderTridiagonalization.Run(a, args...); return err }
+			b.run = func() error { h, u, err := householderTridiagonalization.Run(a, args...); b.ret(h, u); return err }
 		}})
 
 	// ------------------------------------------------------------ 19 matrixInverse.Run
@@ -487,18 +508,18 @@ func init() {
 				args = append(args, gaussJordan.Submatrix{Value: sub})
 			}
 			if b.bit(3) {
-				is := &matrixInverse.InSitu{}
-				is.Id = b.bufM(b.bit(4), "InSitu.Id", n, n)
-				is.A = b.bufM(b.bit(5), "InSitu.A", n, n)
-				is.B = b.bufV(b.bit(6), "InSitu.B", n)
+				is := b.persist(&matrixInverse.InSitu{}).(*matrixInverse.InSitu)
+				b.setM(&is.Id, b.bit(4), "InSitu.Id", n, n)
+				b.setM(&is.A, b.bit(5), "InSitu.A", n, n)
+				b.setV(&is.B, b.bit(6), "InSitu.B", n)
 				if b.bit(7) {
-					is.Cholesky.L = b.bufM(true, "InSitu.Cholesky.L", n, n)
-					is.Cholesky.S = b.bufS(true, "InSitu.Cholesky.S")
-					is.Cholesky.T = b.bufS(true, "InSitu.Cholesky.T")
+					b.setM(&is.Cholesky.L, true, "InSitu.Cholesky.L", n, n)
+					b.setS(&is.Cholesky.S, true, "InSitu.Cholesky.S")
+					b.setS(&is.Cholesky.T, true, "InSitu.Cholesky.T")
 				}
 				args = append(args, is)
 			}
-			b.run = func() error { _, err := matrixInverse.Run(a, args...); return err }
+			b.run = func() error { r, err := matrixInverse.Run(a, args...); b.ret(r); return err }
 		}})
 
 	// ------------------------------------------------------------ 20/21 msqrt.Run, msqrtInv.Run
@@ -578,47 +599,52 @@ func init() {
 				args = append(args, qrAlgorithm.Epsilon{Value: 1e-14})
 			}
 			if b.bit(2) {
-				is := &qrAlgorithm.InSitu{}
+				is := b.persist(&qrAlgorithm.InSitu{}).(*qrAlgorithm.InSitu)
 				is.InitializeH = b.bit(3)
-				is.H = b.bufM(b.bit(4), "InSitu.H", n, n)
-				if b.bit(4) && !b.bit(3) {
-					// caller fills H himself
-					is.H.Set(mkMat(0, n, n, b.s.vals("a")))
+				b.setM(&is.H, b.bit(4), "InSitu.H", n, n)
+				if b.selfBuf() {
+					is.H = a // opt-in: work in place on the input itself
 				}
-				is.U = b.bufM(b.bit(5), "InSitu.U", n, n)
-				is.T1 = b.bufS(b.bit(6), "InSitu.T1")
-				is.T2 = b.bufS(b.bit(7), "InSitu.T2")
-				is.T3 = b.bufS(b.bit(8), "InSitu.T3")
-				is.S = b.bufS(b.bit(9), "InSitu.S")
-				is.Beta = b.bufS(b.bit(10), "InSitu.Beta")
-				is.Nu = b.bufV(b.bit(11), "InSitu.Nu", 3)
-				is.X = b.bufV(b.bit(12), "InSitu.X", 3)
-				is.T = b.bufS(b.bit(13), "InSitu.T")
-				is.T4 = b.bufV(b.bit(14), "InSitu.T4", n)
-				is.C = b.bufS(b.bit(15), "InSitu.C")
-				is.Y = b.bufS(b.bit(16), "InSitu.Y")
-				is.Z = b.bufS(b.bit(17), "InSitu.Z")
+				if is.H != nil && !is.InitializeH && is.H != a {
+					// caller fills H himself
+					if r, c := is.H.Dims(); r == n && c == n {
+						is.H.Set(mkMat(0, n, n, b.s.vals("a")))
+					}
+				}
+				b.setM(&is.U, b.bit(5), "InSitu.U", n, n)
+				b.setS(&is.T1, b.bit(6), "InSitu.T1")
+				b.setS(&is.T2, b.bit(7), "InSitu.T2")
+				b.setS(&is.T3, b.bit(8), "InSitu.T3")
+				b.setS(&is.S, b.bit(9), "InSitu.S")
+				b.setS(&is.Beta, b.bit(10), "InSitu.Beta")
+				b.setV(&is.Nu, b.bit(11), "InSitu.Nu", 3)
+				b.setV(&is.X, b.bit(12), "InSitu.X", 3)
+				b.setS(&is.T, b.bit(13), "InSitu.T")
+				b.setV(&is.T4, b.bit(14), "InSitu.T4", n)
+				b.setS(&is.C, b.bit(15), "InSitu.C")
+				b.setS(&is.Y, b.bit(16), "InSitu.Y")
+				b.setS(&is.Z, b.bit(17), "InSitu.Z")
 				if b.bit(18) {
 					h := &is.Hessenberg
-					h.X = b.bufV(true, "InSitu.Hessenberg.X", n)
-					h.Beta = b.bufS(true, "InSitu.Hessenberg.Beta")
-					h.Nu = b.bufV(true, "InSitu.Hessenberg.Nu", n)
-					h.T4 = b.bufV(true, "InSitu.Hessenberg.T4", n)
+					b.setV(&h.X, true, "InSitu.Hessenberg.X", n)
+					b.setS(&h.Beta, true, "InSitu.Hessenberg.Beta")
+					b.setV(&h.Nu, true, "InSitu.Hessenberg.Nu", n)
+					b.setV(&h.T4, true, "InSitu.Hessenberg.T4", n)
 				}
 				if b.bit(19) {
 					h := &is.Householder
-					h.X = b.bufV(true, "InSitu.Householder.X", n)
-					h.Beta = b.bufS(true, "InSitu.Householder.Beta")
-					h.Nu = b.bufV(true, "InSitu.Householder.Nu", n)
-					h.C1 = b.bufS(true, "InSitu.Householder.C1")
-					h.T1 = b.bufS(true, "InSitu.Householder.T1")
-					h.T2 = b.bufS(true, "InSitu.Householder.T2")
-					h.T3 = b.bufS(true, "InSitu.Householder.T3")
-					h.T4 = b.bufV(true, "InSitu.Householder.T4", n)
+					b.setV(&h.X, true, "InSitu.Householder.X", n)
+					b.setS(&h.Beta, true, "InSitu.Householder.Beta")
+					b.setV(&h.Nu, true, "InSitu.Householder.Nu", n)
+					b.setS(&h.C1, true, "InSitu.Householder.C1")
+					b.setS(&h.T1, true, "InSitu.Householder.T1")
+					b.setS(&h.T2, true, "InSitu.Householder.T2")
+					b.setS(&h.T3, true, "InSitu.Householder.T3")
+					b.setV(&h.T4, true, "InSitu.Householder.T4", n)
 				}
 				args = append(args, is)
 			}
-			b.run = func() error { _, _, err := qrAlgorithm.Run(a, args...); return err }
+			b.run = func() error { h, u, err := qrAlgorithm.Run(a, args...); b.ret(h, u); return err }
 		}})
 
 	// ------------------------------------------------------------ 29 svd.Run
@@ -657,28 +683,31 @@ func init() {
 				args = append(args, svd.Epsilon{Value: 1e-12})
 			}
 			if b.bit(2) {
-				is := &svd.InSitu{}
-				is.A = b.bufM(b.bit(3), "InSitu.A", m, n)
-				is.U = b.bufM(b.bit(4), "InSitu.U", m, m)
-				is.V = b.bufM(b.bit(5), "InSitu.V", n, n)
-				is.Mu = b.bufS(b.bit(6), "InSitu.Mu")
-				is.C = b.bufS(b.bit(7), "InSitu.C")
-				is.S = b.bufS(b.bit(8), "InSitu.S")
-				is.T1 = b.bufS(b.bit(9), "InSitu.T1")
-				is.T2 = b.bufS(b.bit(10), "InSitu.T2")
-				is.T3 = b.bufS(b.bit(11), "InSitu.T3")
-				is.T4 = b.bufS(b.bit(12), "InSitu.T4")
-				is.T5 = b.bufS(b.bit(13), "InSitu.T5")
+				is := b.persist(&svd.InSitu{}).(*svd.InSitu)
+				b.setM(&is.A, b.bit(3), "InSitu.A", m, n)
+				if b.selfBuf() {
+					is.A = a
+				}
+				b.setM(&is.U, b.bit(4), "InSitu.U", m, m)
+				b.setM(&is.V, b.bit(5), "InSitu.V", n, n)
+				b.setS(&is.Mu, b.bit(6), "InSitu.Mu")
+				b.setS(&is.C, b.bit(7), "InSitu.C")
+				b.setS(&is.S, b.bit(8), "InSitu.S")
+				b.setS(&is.T1, b.bit(9), "InSitu.T1")
+				b.setS(&is.T2, b.bit(10), "InSitu.T2")
+				b.setS(&is.T3, b.bit(11), "InSitu.T3")
+				b.setS(&is.T4, b.bit(12), "InSitu.T4")
+				b.setS(&is.T5, b.bit(13), "InSitu.T5")
 				if b.bit(14) {
 					h := &is.HouseholderBidiagonalization
-					h.X = b.bufV(true, "InSitu.HouseholderBidiagonalization.X", m)
-					h.Nu = b.bufV(true, "InSitu.HouseholderBidiagonalization.Nu", m)
-					h.C1 = b.bufS(true, "InSitu.HouseholderBidiagonalization.C1")
-					h.T4 = b.bufV(true, "InSitu.HouseholderBidiagonalization.T4", m)
+					b.setV(&h.X, true, "InSitu.HouseholderBidiagonalization.X", m)
+					b.setV(&h.Nu, true, "InSitu.HouseholderBidiagonalization.Nu", m)
+					b.setS(&h.C1, true, "InSitu.HouseholderBidiagonalization.C1")
+					b.setV(&h.T4, true, "InSitu.HouseholderBidiagonalization.T4", m)
 				}
 				args = append(args, is)
 			}
-			b.run = func() error { _, _, _, err := svd.Run(a, args...); return err }
+			b.run = func() error { h, u, v, err := svd.Run(a, args...); b.ret(h, u, v); return err }
 		}})
 }
 
